@@ -85,13 +85,16 @@ def run_cases(ctx, b, model, table, cases, label, tools):
                 continue
             m = X.parse_run_reply(replies[ci][1 + ti], table)
             drop = X.ORDER_DEPENDENT | ({"OVERLOADED_ATTR", "UNKNOWN_ATTR_IN_ENTITY"} if c.cls == "subtype-cycle" else set())
-            a, mm = X.canon(ob["diags"], drop=drop), X.canon(m["diags"], drop=drop)
+            wl = not getattr(c, "fixed_lines", False)
+            a, mm = X.canon(ob["diags"], with_lines=wl, drop=drop), X.canon(m["diags"], with_lines=wl, drop=drop)
             st_ok = ob["status"] == m["status"] or (c.cls == "subtype-cycle" and ob["status"] == "signal11") or \
                 (m.get("diverges") == "1" and (ob["status"] == "abort" or ob["status"].startswith("signal")))
             if ob["status"] == "signal11":
                 ctx.hist("observations", "SIGSEGV after a subtype cycle was reported (attribute look-up through cyclic supertypes)")
                 a = [x for x in a if x[0] in ("SUBSUPER_LOOP",)]; mm = [x for x in mm if x[0] in ("SUBSUPER_LOOP",)]
             art_ok = bool(ob["files"]) == (m["backend"] == "1") or ob["status"] == "signal11"
+            if "<ambient>" in [x[1] for x in mm]:
+                continue        # the model itself says a conversion consumes a wrong argument (undefined behaviour): C20's business
             if a != mm or not st_ok or not art_ok:
                 n_corr += 1
                 first_corr = first_corr or (c, t, ob, m, a, mm)
@@ -110,6 +113,8 @@ def run_cases(ctx, b, model, table, cases, label, tools):
 def report(ctx, case, tool, ob, v):
     key, what = v
     ctx.violation(key, what, {"input_file": case.path(), "input_text": case.data.decode("latin-1"), "input_hex": case.data.hex(),
+                              "extra_files": {k: v.decode("latin-1") for k, v in getattr(case, "extra", {}).items()},
+                              "express_path": getattr(case, "express_path", None),
                               "tool": tool, "command": f"{tool} {case.path()}",
                               "injected": {"class": case.cls, "expect": case.expect, "verdict": case.verdict, "note": case.note},
                               "proto": case.proto,
@@ -123,6 +128,7 @@ def corpus_cases():
         d = json.load(open(os.path.join(cdir, f)))
         out.append(X.Case(f[:-5], bytes.fromhex(d["input_hex"]), d["proto"], d["cls"], [tuple(x) for x in d["expect"]],
                           d["verdict"], d.get("warn", False), d.get("note", "")))
+        out[-1].fixed_lines = True      # the stored description carries 0-based line numbers: lines are not compared
     return out
 
 
@@ -155,6 +161,8 @@ def run(ctx):
         return
     proof_ok, b, model, table = pr
     quick = ctx.tier == "quick"
+    consts = dict(kv.split("=") for kv in model.ask([["consts"]])[0][0].split()[1:])
+    X.LINE_BASE, X.LINE_RESET = int(consts.get("lineBase", 0)), consts.get("lineReset") == "true"
     first = None
     # an extractor that no longer recognises the source is answered with the widest sweep, not with a shrug
     escalate = any(n == "extract" for n, _ in ctx.broken) or not proof_ok
@@ -173,6 +181,7 @@ def run(ctx):
     streams.append(("cycle-graphs", graphs, ["check-express"]))
     streams.append(("generated", X.gen_cases(ctx.rng, 8 if quick else 300, 6, lexical=True), X.TOOLS))
     streams.append(("multi-schema", X.gen_file_cases(ctx.rng, 5 if quick else 80), X.TOOLS))
+    streams.append(("multi-file", X.gen_multifile_cases(ctx.rng, 3 if quick else 40), X.TOOLS))
     for label, cases, tools in streams:
         fc = run_cases(ctx, b, model, table, cases, label, tools)
         first = first or fc
@@ -202,6 +211,8 @@ def replay(ctx, path):
     inj = r.get("injected", {})
     c = X.Case(r["input_file"][:-4], bytes.fromhex(r["input_hex"]), r.get("proto", []), inj.get("class", "?"),
                [tuple(x) for x in inj.get("expect", [])], inj.get("verdict", "reject"), note=inj.get("note", ""))
+    c.extra = {k: v.encode("latin-1") for k, v in r.get("extra_files", {}).items()}
+    c.express_path = r.get("express_path")
     tool = r.get("tool", "check-express")
     ob = observed(X.run_tool(b, tool, c, [], ctx.work), table)
     ctx.count(1, key=(tool, c.data))
